@@ -74,41 +74,103 @@ def const_arg(body, a):
     return None
 
 
-def buffer_events(body, buf, db=None, prim=None, _frames=(), _depth=0):
-    """calls that append to local `buf` (directly, through &mut reborrows, or through a closure capturing &mut buf), in RPO.
-    prim: set of callee short names the caller's layout treats as primitive appends; when given, any other function of the same crate that
-    receives the buffer by `&mut` is inlined (its own appends take its place, up to depth 4), so that extracting a stretch of appends
-    into a helper does not change the trace.  Inlined events carry `body` (where their operands live) and `frames` (the call chain)."""
+def innermost_loops(body):
+    """block -> tuple of loop heads from outermost to innermost (await loops are not loops)"""
+    be = flow.back_edges(body)
+    preds = body.preds()
+    loops = {}
+    for (src, lab) in be:
+        head = flow.edge_target(body, (src, lab))
+        loop = {head, src}
+        st = [src]
+        while st:
+            x = st.pop()
+            if x == head:
+                continue
+            for p, _ in preds.get(x, []):
+                if p not in loop:
+                    loop.add(p)
+                    st.append(p)
+        if any(body.blocks[b]["term"]["k"] == "yield" for b in loop):
+            continue
+        loops.setdefault(head, set()).update(loop)
+    out = {}
+    for b in body.live_blocks():
+        hs = [(len(blocks), h) for h, blocks in loops.items() if b in blocks]
+        hs.sort(reverse=True)
+        out[b] = tuple(h for _, h in hs)
+    return out
+
+
+def is_buf(body, arg, buf):
+    """buf: a local, or ("upvar", j) = the place captured as field j of a closure's environment"""
+    if isinstance(buf, tuple):
+        body.defs()
+        p = flow.op_place(arg)
+        cands = []
+        if p is not None:
+            cands.append((p["l"], p["proj"]))
+        cands += body._mut_places(arg, 0)
+        for l, pj in cands:
+            if l == 1:
+                fs = [e for e in pj if isinstance(e, dict) and "f" in e]
+                if fs and fs[0]["f"] == buf[1]:
+                    return True
+        return False
+    return targets_buffer(body, arg, buf)
+
+
+def _closure_capturing(body, arg, buf):
+    """(closure body name, index of the upvar that is the buffer, capture operands) when `arg` is a closure that captures the buffer by &mut"""
+    ch = flow.resolve_chain(body, arg) or []
+    for l, _ in ch:
+        for df in body.defs().get(l, []):
+            if df["kind"] == "assign" and df["rv"]["k"] == "agg" and df["rv"].get("agg") == "closure":
+                for j, o in enumerate(df["rv"]["ops"]):
+                    if is_buf(body, o, buf):
+                        return df["rv"].get("def"), j, df["rv"]["ops"]
+    return None
+
+
+def buffer_events(body, buf, db=None, prim=None, _frames=(), _depth=0, _loops=()):
+    """calls that append to `buf` (directly, through &mut reborrows, or through a closure capturing &mut buf), in RPO.
+    prim: set of callee short names the caller's layout treats as primitive appends; when given, (a) any other function of the same crate that
+    receives the buffer by `&mut` is inlined (its own appends take its place, up to depth 4) and (b) a closure that captures the buffer and is
+    handed to an iterator adaptor (`for_each`, ...) is expanded into its own appends, as a loop.  Inlined events carry `body` (where their
+    operands live), `frames` (the call chain) and `loops` (enclosing loop ids, outermost first)."""
     order = rpo(body)
-    loops = loop_blocks(body)
+    loops = innermost_loops(body)
     ev = []
     for bi in order:
         t = body.blocks[bi]["term"]
         if t["k"] != "call" or not t["args"]:
             continue
-        hits = [i for i, a in enumerate(t["args"]) if targets_buffer(body, a, buf)]
+        hits = [i for i, a in enumerate(t["args"]) if is_buf(body, a, buf)]
         if not hits:
             continue
         d = callee_def(t)
         if flow.is_transparent(t) or d.endswith("::with_capacity") or d.endswith("::reserve"):
             continue
+        here = _loops + tuple((body.name, h) for h in loops.get(bi, ()))
         if prim is not None and db is not None and _depth < 4 and short(d) not in prim and len(hits) == 1:
             cb = db.bodies.get(t["callee"].get("resolved") or "") or db.bodies.get(d)
             if cb is not None and cb.crate == body.crate and cb.kind in ("Fn", "AssocFn") and cb.name != body.name:
-                sub = buffer_events(cb, hits[0] + 1, db, prim, _frames + ((body, t, cb),), _depth + 1)
-                if bi in loops:
-                    for e in sub:
-                        e["in_loop"] = True
-                ev.extend(sub)
+                ev.extend(buffer_events(cb, hits[0] + 1, db, prim, _frames + ((body, t, cb, "fn", None),), _depth + 1, here))
                 continue
-        args = [a for a in t["args"] if not targets_buffer(body, a, buf)]
+            cc = _closure_capturing(body, t["args"][hits[0]], buf)
+            if cc is not None and cc[0] in db.bodies:
+                cbody = db.bodies[cc[0]]
+                ev.extend(buffer_events(cbody, ("upvar", cc[1]), db, prim, _frames + ((body, t, cbody, "closure", cc[2]),), _depth + 1,
+                                        here + ((body.name, "closure@%d" % bi),)))
+                continue
+        args = [a for a in t["args"] if not is_buf(body, a, buf)]
         consts = [const_arg(body, a) for a in args]
         # a constant handed down through a parameter of an inlined helper
         for i, a in enumerate(args):
             if consts[i] is None and _frames:
                 consts[i] = _const_through_frames(body, a, _frames)
         ev.append({"bi": bi, "callee": d, "short": short(d), "consts": consts, "args": args,
-                   "in_loop": bi in loops, "line": t["span"]["line"], "body": body, "frames": _frames})
+                   "in_loop": bool(here), "loops": here, "line": t["span"]["line"], "body": body, "frames": _frames})
     return ev
 
 
@@ -116,7 +178,9 @@ def _const_through_frames(body, a, frames):
     r = flow.resolve_place(body, a)
     if r is None or r[1] or not (1 <= r[0] <= body.argc) or not frames:
         return None
-    caller, term, _ = frames[-1]
+    caller, term = frames[-1][0], frames[-1][1]
+    if len(frames[-1]) > 3 and frames[-1][3] == "closure":
+        return None
     if r[0] - 1 >= len(term["args"]):
         return None
     c = const_arg(caller, term["args"][r[0] - 1])
